@@ -18,7 +18,9 @@ STMTS = {"assign": "o.x = {c}", "add": "o.x += {c}", "sub": "o.x -= {c}", "mul":
 SHAPES = ["{stmt}", "{stmt}", "objs[0].x {op} {c}", "same(o).x {op} {c}", "if True: {stmt}",
           "o . x {op} {c}",
           # the same line reads the attribute a second time, before or after the assignment
-          "if o.x > -10 ** 9: {stmt}", "{stmt}; out.append(o.x)"]
+          "if o.x > -10 ** 9: {stmt}", "{stmt}; out.append(o.x)",
+          # the same statement written over two lines
+          "o.x \\\n      {op} {c}", "o.x {op} (\n      {c})"]
 OPS = {"add": "+=", "sub": "-=", "mul": "*="}
 
 
@@ -66,7 +68,7 @@ class C27(Prop):
           "by a virtual lock: 2-3 threads x 1-3 statements each from {o.x = c, o.x += c, o.x -= c, "
           "o.x *= c, read o.x} on one thread-safe attribute (the augmented assignments also written as "
           "objs[0].x += c, same(o).x += c, 'if True: o.x += c', 'o . x += c', 'if o.x > -10**9: o.x += c' and "
-          "'o.x += c; out.append(o.x)'; a quarter of the programs put the statements in functions that refer to 140 "
+          "'o.x += c; out.append(o.x)' and the statement split over two lines with a backslash or parentheses'; a quarter of the programs put the statements in functions that refer to 140 "
           "other names first), written to a real source file (miros "
           "inspects the caller's source line); pre-emption at every line of "
           "miros/thread_safe_attributes.py and of the generated file, schedules with run lengths "
